@@ -56,22 +56,28 @@ trait CommonThreadInfo {
 
         let status_path = path::PathBuf::from(format!("/proc/{}/status", tid));
         let status_file = std::fs::File::open(status_path)?;
-        for line in io::BufReader::new(status_file).lines() {
-            let l = line?;
+        for line in io::BufReader::new(status_file).split(b'\n') {
+            let line = line?;
+            // The `Name:` line repeats the thread's name, which the target chooses and the
+            // kernel may cut in the middle of a multi-byte character: only the numeric lines
+            // we are looking for need to be text.
+            let Ok(l) = std::str::from_utf8(&line) else {
+                continue;
+            };
             let start = l
                 .get(0..6)
-                .ok_or_else(|| ThreadInfoError::InvalidProcStatusFile(tid, l.clone()))?;
+                .ok_or_else(|| ThreadInfoError::InvalidProcStatusFile(tid, l.to_string()))?;
             match start {
                 "Tgid:\t" => {
                     tgid = l
                         .get(6..)
-                        .ok_or_else(|| ThreadInfoError::InvalidProcStatusFile(tid, l.clone()))?
+                        .ok_or_else(|| ThreadInfoError::InvalidProcStatusFile(tid, l.to_string()))?
                         .parse::<Pid>()?;
                 }
                 "PPid:\t" => {
                     ppid = l
                         .get(6..)
-                        .ok_or_else(|| ThreadInfoError::InvalidProcStatusFile(tid, l.clone()))?
+                        .ok_or_else(|| ThreadInfoError::InvalidProcStatusFile(tid, l.to_string()))?
                         .parse::<Pid>()?;
                 }
                 _ => continue,
